@@ -100,6 +100,8 @@ func runC11(r *Run) {
 	P := r.P
 	const lk = "x/liquidvesting/keeper"
 	modName, _ := P.constOf(haqqMod+"/x/liquidvesting/types", "ModuleName")
+	r.Rule("R11", "see C09 R6 and R11 (imported): Redeem hands the redeemed schedule to the vesting keeper's addGrant; a merge stores start, end (the later of both schedules' ends), both period lists and the total — an account end time that is not recomputed makes ReadSchedule's shortcut release the redeemed coins when the recipient's *old* schedule ends; and the schedule readers advance their clock by every period")
+	r.Import("R11/C09.", []string{"R6", "R11"}, runC09)
 	r.Rule("R1", "PATH+FLOW: tabled events (error-checked, amounts derived from msg.Amount, module account = liquidvesting) precede every success exit of Liquidate and Redeem; guards: module enabled, no unvested coins, locked balance ≥ amount; ApplyVestingSchedule(diffPeriods) follows whenever len(upcomingPeriods) > 0")
 	r.Rule("R2", "OWN: MintCoins/BurnCoins(…, liquidvesting, …) only in Liquidate/Redeem; SetDenom/UpdateDenomPeriods/DeleteDenom/SetDenomCounter called only from the keeper's denom functions, Redeem, genesis and app/upgrades")
 
@@ -368,6 +370,70 @@ func runC11(r *Run) {
 			"SubtractAmountFromPeriods writes a period amount at "+bad+" that is not computed with a coin of the requested denomination (a whole period amount copied or emptied): for a schedule that carries a second denomination more than the requested coin moves, and the account's own schedule loses coins nobody asked for")
 	} else {
 		r.Bad("R6", "anchor/SubtractAmountFromPeriods", "", "not found")
+	}
+	r.Rule("R10", "SHAPE.split-in-whole-units: the proportional split of a liquidated or redeemed amount over the periods is integer arithmetic — period amount × requested amount ÷ total, the multiplication first, with the remainder handed out from the tail — so that the parts never sum to more than the request. The schedule helpers of x/liquidvesting/types use no fixed-point type (no value or call of sdk.Dec / math.LegacyDec), and every per-period part derives from an Int.Quo whose dividend is an Int.Mul of the period's amount and the requested amount: a pre-computed 18-digit share (rounded up 'to keep thirds exact') overshoots as soon as a period holds a whole ISLM, the negative remainder is dropped, and more coins move than were asked for")
+	{
+		nF := 0
+		for _, fn := range P.Funcs {
+			if !pathHasSuffix(fnPkgPath(fn), "x/liquidvesting/types") || isTestSupport(P, fn) || fn.Synthetic != "" || isGeneratedFile(P.FileOf(fnPos(outermost(fn)))) {
+				continue
+			}
+			if !strings.HasSuffix(P.FileOf(fnPos(outermost(fn))), "schedule.go") {
+				continue
+			}
+			nF++
+			bad := ""
+			eachInstr(fn, func(in ssa.Instruction) {
+				if v, ok := in.(ssa.Value); ok && bad == "" {
+					if n := namedName(v.Type()); n == "LegacyDec" || n == "Dec" {
+						bad = P.Pos(instrPos(in))
+					}
+				}
+			})
+			r.Check(bad == "", "R10", fnID(fn)+"#no-fixed-point", P.Pos(fnPos(fn)), "integer arithmetic only",
+				"a schedule helper of liquid vesting computes with an 18-decimal fixed-point number at "+bad+": per-period parts computed from a rounded share do not add up to the requested amount (they overshoot for period amounts of 1e18 and more), so more coins are liquidated or redeemed than asked for and the recorded schedule no longer sums to the supply")
+		}
+		r.Floor("R10", "schedule helpers of x/liquidvesting/types", nF, 4)
+		if sp, ok := P.FnOK("x/liquidvesting/types.SubtractAmountFromPeriods"); ok {
+			// the per-period part: the value added to the running total inside the first loop
+			okPart, nPart := true, 0
+			eachCall(sp, func(ci CallInfo) {
+				if ci.Name != "NewCoin" {
+					return
+				}
+				a := callArgs(ci.Instr)
+				if len(a) < 2 {
+					return
+				}
+				amt := backSlice(a[1])
+				// only the proportional part (it depends on the total), not the residue hand-out
+				if !amt.HasCall(func(g CallInfo) bool { return g.Name == "TotalAmount" }) {
+					return
+				}
+				nPart++
+				isProp := amt.Any(func(v ssa.Value) bool {
+					q, ok := v.(*ssa.Call)
+					if !ok || callInfo(q).Name != "Quo" || callInfo(q).Recv != "Int" {
+						return false
+					}
+					qa := callArgs(q)
+					if len(qa) != 2 {
+						return false
+					}
+					m, ok := stripValue(qa[0]).(*ssa.Call)
+					if !ok || callInfo(m).Name != "Mul" || callInfo(m).Recv != "Int" {
+						return false
+					}
+					ms := backSlice(callArgs(m)...)
+					return ms.HasParam("subtrahend") && ms.HasCall(func(g CallInfo) bool { return g.Name == "AmountOf" }) && backSlice(qa[1]).HasCall(func(g CallInfo) bool { return g.Name == "TotalAmount" })
+				})
+				if !isProp {
+					okPart = false
+				}
+			})
+			r.Check(okPart && nPart >= 1, "R10", fnID(sp)+"#part-is-amount-times-request-over-total", P.Pos(fnPos(sp)), "every proportional part is (period amount × requested amount) ÷ total in integers",
+				"a per-period part of SubtractAmountFromPeriods is not computed as Int.Mul(period amount, requested amount).Quo(total): dividing first, or multiplying by a rounded share, loses or gains units per period")
+		}
 	}
 	r.Rule("R3", "FLOW.schedule-stored-unmodified: UpdateDenomPeriods stores its periods parameter itself into Denom.LockupPeriods and then SetDenom; CreateDenom stores its periods parameter itself and an EndTime derived from start + periods.TotalLength()")
 	if fn, ok := P.FnOK("(" + lk + ".Keeper).UpdateDenomPeriods"); ok {
